@@ -12,7 +12,7 @@ GNext == Next /\ hist' = hist \o out'
 GSpec == GInit /\ [][GNext]_gvars
 
 Terminal == Len(w.stack) = 0 /\ w.step >= 1 /\
-            (w.step >= MaxSteps \/ (StepKinds = {"ops"} /\ w.budget = 0 /\ FinalStep = ""))
+            (w.step >= MaxSteps \/ (StepKinds \subseteq {"ops", "frame", "direct"} /\ w.budget = 0 /\ FinalStep = ""))
 
 Emitted == Terminal => PrintT(<<"REPLAY", ToJson(hist)>>)
 
